@@ -2,7 +2,7 @@
 import ast
 
 from ..core import AnalysisError, call_name, dotted, is_const, src, walk_shallow, parents_map, norm_stmt
-from ..lib import (Rules, calls_in, method_calls, const_str, need, single, guards_of, is_none_test,
+from ..lib import (deep_sources, Rules, calls_in, method_calls, const_str, need, single, guards_of, is_none_test,
                    attr_stores, find_loops, mentions_attr)
 from ..xmltable import writer_facts, ReaderAnalysis
 
@@ -302,7 +302,7 @@ def shape(repo, chk):
     for q in (L + ':PageLayout.to_pagexml_string', L + ':RegionLayout.to_page_xml'):
         fi = repo.func(q)
         for c in _points_producers(fi):
-            srcs = fi.flow.sources(c.args[1], c)
+            srcs = [e for _, e in deep_sources(repo, fi, c.args[1], c)]
             comps = [e for s in srcs for e in ast.walk(s) if isinstance(e, (ast.ListComp, ast.GeneratorExp))]
             need(comps, 'points value at %s does not derive from a comprehension' % fi.loc(c))
             comp = comps[0]
